@@ -33,9 +33,11 @@ REQUIRED = ['recursiveloader:ManifestLoader.verify_and_load', 'chain_invariant_c
             'baseline_accepts', 'stealth_cases_judged', 'weak_cases_judged',
             'twin_cases_judged', 'api:assert_directory_verifies-dir-k',
             'double_cases_judged', 'rmdir_cases_judged', 'sibling_updates_failed',
-            'lastmtime_cases']
-ASSUMPTIONS = ['update mode deliberately loads without verification; only loaders '
-               'that were not asked to update are covered',
+            'lastmtime_cases', 'pending_update_histories', 'epoch_mtime_cases']
+ASSUMPTIONS = ['update mode (update_entries_for_directory) deliberately loads without '
+               'verification; only loaders that were not asked for a directory update are '
+               'covered (refreshing one entry of the top directory verifies what it loads '
+               'and is part of the histories)',
                'the attacker cannot produce hash collisions']
 
 TAMPERS = ['change', 'add', 'remove', 'dist-change', 'dist-add', 'dist-remove']
@@ -69,6 +71,10 @@ def units(tier, seed):
         for draw in range(2 if tier == 'quick' else 10):
             u.append({'k': 'chain', 'depth': depth, 'tamper': 'change',
                       'draw': 200 + draw, 'stealth': 'STEALTH'})
+    for depth in (1, 2, 3):
+        for draw in range(2 if tier == 'quick' else 10):
+            u.append({'k': 'chain', 'depth': depth, 'tamper': 'change',
+                      'draw': 700 + draw, 'stealth': 'STEALTH', 'epoch': True})
     for depth in (1, 2, 3):
         for draw in range(6 if tier == 'quick' else 40):
             u.append({'k': 'chain', 'depth': depth, 'tamper': 'change',
@@ -307,6 +313,10 @@ def run_case(ctx, root, case, layout, dirs, chain, files):
             if os.path.getsize(os.path.join(root, fm)) != sz:
                 ctx.discarded('stealth tamper changed a Manifest size')
                 return
+            if case.get('epoch'):
+                # the attacker is free to pick any timestamps: the epoch or earlier
+                at = mt = [0, -5 * 10**9, 1][case['seed'] % 3]
+                ctx.count('epoch_mtime_cases')
             os.utime(os.path.join(root, fm), ns=(at, mt))
     first_broken = chain[k]
     # oracle self-check: below the broken link everything is consistent
@@ -352,6 +362,15 @@ def run_case(ctx, root, case, layout, dirs, chain, files):
             m.find_timestamp()
         elif pre == 'find_dist':
             m.find_dist_entry('no-such-dist', '')
+        elif pre == 'pending-update':
+            # a pending (unsaved) change of the untouched top-level Manifest on a
+            # long-lived loader: refreshing the entry of a file of the top directory
+            # verifies and loads nothing below it
+            tops = sorted(f for f in files if '/' not in f
+                          and files[f] == chain[0])
+            if tops and not case.get('weak'):
+                m.update_entry_for_path(tops[0])
+                ctx.count('pending_update_histories')
         if api.startswith('cli-verify'):
             from gemato import cli as gcli
             import logging
@@ -579,7 +598,8 @@ def gen_and_run(ctx, u, k, api, seed):
                 'gen_seed': ctx.seed, 'weak': u.get('weak'),
                 'stealth': u.get('stealth'), 'double': u.get('double'),
                 'sibling': u.get('sibling'),
-                'pre': [None, 'find_timestamp', 'find_dist'][seed % 3]}
+                'pre': [None, 'find_timestamp', 'find_dist', 'pending-update'][seed % 4],
+                'epoch': u.get('epoch')}
         if u.get('rmdir'):
             case['rmdir'] = True
             run_rmdir(ctx, root, case, layout, dirs, chain, files)
@@ -623,5 +643,6 @@ def replay(case, ctx):
     u = {'depth': case['depth'], 'tamper': case['tamper'], 'draw': case['draw'],
          'weak': case.get('weak'), 'stealth': case.get('stealth'),
          'twin': case.get('twin'), 'double': case.get('double'),
-         'rmdir': case.get('rmdir'), 'sibling': case.get('sibling')}
+         'rmdir': case.get('rmdir'), 'sibling': case.get('sibling'),
+         'epoch': case.get('epoch')}
     gen_and_run(ctx, u, case['k'], case['api'], case['seed'])
